@@ -109,3 +109,20 @@ def report_fails(ctx, s, want_prop):
             continue
         sig = {"kind": m["kind"], "op": m["op"], "backend": m["backend"]}
         ctx.report(sig, "%s/%s %s at step %d (%s): %s" % (m["type"], m["backend"], m["kind"], m["step"], m["op"], m["detail"]), m)
+
+
+def big_arrays(ctx, kinds):
+    """The definitions of NdArray.tla (exact write footprints; bulk operations = the row-major element-by-element pass)
+    evaluated element by element by the engine on stores of 3e4..1.4e5 elements (TLC's stores have a few dozen cells):
+    odd element counts above 2^15 / 2^16, planes, stepped blocks, 1 x 1 x n rows, Go- and C-backed in every pairing."""
+    from .common import run_vh, last_json
+    rc, out, err = run_vh(ctx, ["bigarrays"], timeout=600)
+    if rc != 0:
+        ctx.report({"kind": "process-crash", "op": "bigarrays"}, "whole-array operations on big stores crashed the process: " + err[-1500:], {"stderr": err[-3000:]})
+        return
+    s = last_json(out)
+    ctx.cov["evaluations"] += s["evaluations"]
+    ctx.notes["big_arrays"] = {"element_checks": s["evaluations"], "mismatches": s["n_mismatch"]}
+    for m in s["mismatches"]:
+        if m["kind"] in kinds or m["kind"] == "panic":
+            ctx.report({"kind": "big-" + m["kind"], "op": m["op"][:60]}, "%s: %s" % (m["op"], m["detail"]), m)
